@@ -221,8 +221,12 @@ def _gen_test_script(r, fail, repeat, rounds, decisive_after):
         appear[names[0]] = min(appear[names[0]], k)
       script.append({"named": lst})
       shadow.run([(nm, p) for nm, p in lst])
+  # one name is a proper prefix of another (as LinearComplexity is of
+  # LinearComplexityScatter in the real registry): a prefix equal to a full
+  # name still selects every test that starts with it
   return {"name": "Stub%s" % r.choice(["Alpha", "Beta", "Gamma", "Delta",
-                                        "Frequency", "Find"]),
+                                        "Frequency", "Find", "AlphaScatter",
+                                        "Alpha"]),
           "params": r.choice([[], [], [7], [3, 4]]), "script": script}
 
 
@@ -724,6 +728,10 @@ def _gen_e2e(r, tier):
       # tree: 68 of 68 detections at random sizes)
       hi = 2 * nmin if prefix == "LargeBinaryMatrixRank" else 4 * nmin
       n = r.randrange(nmin, min(hi, 2**18 if prefix == "FindBias" else hi))
+    if prefix == "LinearComplexityScatter" and r.random() < 0.5:
+      # the shorter prefix is a full test name itself and still selects the
+      # scatter tests
+      prefix = "LinearComplexity"
     op = {"op": "weak", "gen": gen, "prefix": prefix, "n": n,
           "entry": r.choice(["source", "bitstring"]),
           "seeds": [r.getrandbits(40) | 1 for _ in range(8)]}
